@@ -3,7 +3,7 @@
    runner and by vm_compute inside Coq (Cases_*.v). *)
 From Coq Require Import List NArith ZArith Bool String.
 From Coq.Strings Require Import Byte.
-From OAP Require Import Base.Bytes Base.Res Base.Text Gen.Consts Model.Handshake Model.Metadata Model.Header Model.Frame Model.Stream Model.Chunks Model.World Model.Ids Model.Waiters Model.Dispatch Model.WritePath Model.Recovery Model.Keepalive Model.WsBridge Model.Life Model.CloseLock.
+From OAP Require Import Base.Bytes Base.Res Base.Text Gen.Consts Model.Handshake Model.Metadata Model.Header Model.Frame Model.Stream Model.Chunks Model.World Model.Ids Model.Waiters Model.Dispatch Model.WritePath Model.Recovery Model.Keepalive Model.WsBridge Model.Life Model.CloseLock Model.Ring.
 Import ListNotations.
 Local Open Scope N_scope.
 
@@ -713,6 +713,38 @@ Definition run_cl (args : list bytes) : bytes :=
       | _, _ => bad end
   | _ => bad end.
 
+(* ---- concrete ring (Model/Ring.v) ----
+   rg.ops <size> <backing array, hex> <r> <w> <empty 0|1> <op> ...   with op = l | p<n> | r<n>
+   output: one item per op ("L <len>", "P <first>|<end>", "R") joined by " ; ", then " ; S <r> <w> <empty> <content>" *)
+Definition run_rg (op : bytes) (args : list bytes) : bytes :=
+  match args with
+  | size :: buf :: r :: w :: e :: ops =>
+      match undec size, unhexx buf, undec r, undec w, undec e with
+      | Some size, Some buf, Some r, Some w, Some e =>
+          let g0 := mkRing buf (N.to_nat size) (N.to_nat r) (N.to_nat w) (N.eqb e 1) in
+          let step (acc : option (ring byte * list bytes)) (o : bytes) :=
+            match acc, o with
+            | Some (g, out), k :: n =>
+                if byte_eqb k "l"%byte then Some (g, out ++ [str "L " ++ decn (ring_length g)])
+                else match undec n with
+                     | Some n =>
+                         if byte_eqb k "p"%byte then
+                           let fe := ring_peek g (N.to_nat n) in
+                           Some (g, out ++ [str "P " ++ hex (fst fe) ++ str "|" ++ hex (snd fe)])
+                         else if byte_eqb k "r"%byte then Some (ring_retrieve g (N.to_nat n), out ++ [str "R"])
+                         else None
+                     | None => None end
+            | _, _ => None
+            end in
+          match fold_left step ops (Some (g0, [])) with
+          | Some (g, out) =>
+              join (str " ; ") (out ++ [str "S " ++ decn (rb_r g) ++ sp ++ decn (rb_w g) ++ sp ++
+                                       (if rb_empty g then str "1" else str "0") ++ sp ++ hex (ring_content g)])
+          | None => bad
+          end
+      | _, _, _, _, _ => bad end
+  | _ => bad end.
+
 Definition run_line (line : bytes) : bytes :=
   match words line with
   | op :: args =>
@@ -729,6 +761,7 @@ Definition run_line (line : bytes) : bytes :=
       else if starts_with (str "wb.") op then run_wb op args
       else if starts_with (str "lf.") op then run_lf op args
       else if bytes_eqb op (str "cl.run") then run_cl args
+      else if starts_with (str "rg.") op then run_rg op args
       else bad
   | [] => bad
   end.
